@@ -128,6 +128,50 @@ def r06_1(ctx):
     return rr
 
 
+def _builder_sites_ok(ctx, rr, f, name_param, lacking):
+    """``f`` builds an exact-name node from a name its caller supplies.  True when call sites exist and each passes a
+    name that depends on every caller parameter the arguments for ``lacking`` depend on (findings are filed here)."""
+    fparams = [a.arg for a in f.node.args.posonlyargs + f.node.args.args]
+    if fparams and fparams[0] in ("self", "cls"):
+        fparams = fparams[1:]
+    scope = list(f.cls.methods.values()) if f.cls is not None else list(f.module.functions.values())
+    sites = []
+    for g in scope:
+        if g is f:
+            continue
+        for n in body_walk(g.node):
+            if isinstance(n, ast.Call) and ((isinstance(n.func, ast.Attribute) and n.func.attr == f.name and isinstance(n.func.value, ast.Name) and n.func.value.id in ("self", "cls")) or (isinstance(n.func, ast.Name) and n.func.id == f.name)):
+                sites.append((g, n))
+    if not sites:
+        return False
+    ok = True
+    for g, n in sites:
+        if any(isinstance(a, ast.Starred) for a in n.args) or any(k.arg is None for k in n.keywords):
+            ok = False
+            continue
+        bound = dict(zip(fparams, n.args))
+        bound.update({k.arg: k.value for k in n.keywords})
+        gdefs = Defs(g.node)
+        nm = bound.get(name_param)
+        if nm is None:
+            ok = False
+            continue
+        name_roots = roots(nm, gdefs, safe_attrs=frozenset(), safe_calls=frozenset())
+        arg_roots = set()
+        for p in lacking:
+            if p in bound:
+                arg_roots |= roots(bound[p], gdefs, safe_attrs=frozenset(), safe_calls=frozenset())
+        arg_roots -= {"self", "cls"}
+        c = site(g, n)[:200]
+        rr.inst(c, via_builder=f.qualname, name=unparse(nm)[:80], name_param_roots=sorted(name_roots), operand_param_roots=sorted(arg_roots))
+        miss = arg_roots - name_roots
+        if miss and g.construct in R062_EXEMPT:
+            rr.exempt(c, R062_EXEMPT[g.construct])
+        elif miss:
+            ctx.finding(rr, c, f"the exact name handed to {f.qualname} ({unparse(nm)[:60]}) does not depend on parameter(s) {sorted(miss)} that the rebuilt node's operands depend on: different content, same name", func=g, node=n)
+    return ok
+
+
 def r06_2(ctx):
     rr = RuleResult("R06.2", "COVER", "hand-built exact names / explicit tokens depend on every method parameter the constructed operands depend on", min_instances=3)
     repo = ctx.repo
@@ -163,6 +207,11 @@ def r06_2(ctx):
                 if lacking and f.construct in R062_EXEMPT:
                     rr.exempt(c, R062_EXEMPT[f.construct])
                     continue
+                if lacking and isinstance(name_expr, ast.Name) and name_expr.id in defs.params and not defs.defs.get(name_expr.id):
+                    # a builder helper: the name is handed in by the caller, so the obligation is the caller's - at every
+                    # call site the name argument must depend on what the other (operand) arguments depend on
+                    if _builder_sites_ok(ctx, rr, f, name_expr.id, lacking):
+                        continue
                 if lacking:
                     ctx.finding(rr, c, f"the hand-built name {unparse(name_expr)} does not depend on parameter(s) {sorted(lacking)} that the node's operands depend on: different content, same name", func=f, node=n)
     return rr
